@@ -33,6 +33,8 @@ import (
 	"github.com/attestantio/vouch/services/synccommitteemessenger"
 	standardsynccommitteemessenger "github.com/attestantio/vouch/services/synccommitteemessenger/standard"
 	standardsynccommitteesubscriber "github.com/attestantio/vouch/services/synccommitteesubscriber/standard"
+	bestattestationdata "github.com/attestantio/vouch/strategies/attestationdata/best"
+	firstattestationdata "github.com/attestantio/vouch/strategies/attestationdata/first"
 	"github.com/rs/zerolog"
 	e2wtypes "github.com/wealdtech/go-eth2-wallet-types/v2"
 
@@ -478,8 +480,30 @@ func Build(ctx context.Context, rec *Record, nodes []*Node, waitedForGenesis boo
 			return nil, err
 		}
 		setter = sys.Cache
+		var dataProvider eth2client.AttestationDataProvider = n0
+		switch p.DataStrategy {
+		case "first":
+			provs := map[string]eth2client.AttestationDataProvider{}
+			for _, n := range nodes {
+				provs[n.NodeName] = n
+			}
+			dataProvider, err = firstattestationdata.New(ctx, firstattestationdata.WithLogLevel(lvl), firstattestationdata.WithClientMonitor(mon), firstattestationdata.WithTimeout(2*time.Second), firstattestationdata.WithAttestationDataProviders(provs))
+			if err != nil {
+				return nil, err
+			}
+		case "best":
+			provs := map[string]eth2client.AttestationDataProvider{}
+			for _, n := range nodes {
+				provs[n.NodeName] = n
+			}
+			dataProvider, err = bestattestationdata.New(ctx, bestattestationdata.WithLogLevel(lvl), bestattestationdata.WithClientMonitor(mon), bestattestationdata.WithTimeout(2*time.Second), bestattestationdata.WithProcessConcurrency(4),
+				bestattestationdata.WithAttestationDataProviders(provs), bestattestationdata.WithChainTime(sys.ChainTime), bestattestationdata.WithBlockRootToSlotCache(sys.Cache))
+			if err != nil {
+				return nil, err
+			}
+		}
 		sys.Attester, err = standardattester.New(ctx, standardattester.WithLogLevel(lvl), standardattester.WithProcessConcurrency(4), standardattester.WithChainTime(sys.ChainTime), standardattester.WithSpecProvider(n0),
-			standardattester.WithAttestationDataProvider(n0), standardattester.WithAttestationsSubmitter(sub.(submitter.AttestationsSubmitter)), standardattester.WithMonitor(mon),
+			standardattester.WithAttestationDataProvider(dataProvider), standardattester.WithAttestationsSubmitter(sub.(submitter.AttestationsSubmitter)), standardattester.WithMonitor(mon),
 			standardattester.WithValidatingAccountsProvider(accs), standardattester.WithBeaconAttestationsSigner(signerSvc))
 		if err != nil {
 			return nil, err
@@ -552,6 +576,8 @@ func Build(ctx context.Context, rec *Record, nodes []*Node, waitedForGenesis boo
 type Hooks struct {
 	// Tick is called by the main task at the start of every slot (after that slot's jobs had a chance to be due).
 	Tick func(rec *Record, slot uint64, live *Incarnation)
+	// Mid is called late in every slot (attestation, aggregation and sync jobs of the slot are over in quiet times).
+	Mid func(rec *Record, slot uint64, live *Incarnation)
 }
 
 // Run executes the plan; it must be called from the main task inside sim.Run.
@@ -666,6 +692,15 @@ func Run(ctx context.Context, p *Plan, hooks *Hooks) *Record {
 			var l *Incarnation
 			simrt.Crit(func() { l = live })
 			hooks.Tick(rec, s, l)
+		}
+		if hooks != nil && hooks.Mid != nil && s < p.HorizonSlots {
+			// late in the slot and off every lattice of delays and timeouts used by the configuration
+			if simrt.Sleep(ctx, time.Duration(p.SecondsPerSlot)*time.Second*15/16+7*time.Millisecond, "main/mid") != nil {
+				break
+			}
+			var l *Incarnation
+			simrt.Crit(func() { l = live })
+			hooks.Mid(rec, s, l)
 		}
 	}
 	return rec
